@@ -3,6 +3,7 @@
    string/ascii/nat stay extracted inductives.  No Extract Constant. *)
 Require Extraction.
 Require Import ExtrOcamlBasic.
+From DI.proofs Require Import ParamIdem.
 From DI Require Import Search Gen GenMain Syntax Tokens Bounds Param Subs Superset Substitute Spec RustSem Group Validate.
 Extraction Language OCaml.
-Extraction "model.ml" term_eqb sup merge is_eq lookup subst_key reverse_map stable_key wf_subsb apply norm params equivb plain has_comm_binary cwf value_of tokens tok_ok tb_eqb tb_hash_input tb_tokens key_eqb applicable trait_ref applies parse_groups gi_check gi_diagnose search_render gen_render gen_main_render gen_main_items_render gen_helper_items_render gen_helper_traits_render canon ren ren_gp gp_decl index_block validate_trait validate_inherent generated_vis.
+Extraction "model.ml" term_eqb sup merge is_eq lookup subst_key reverse_map stable_key wf_subsb apply norm params equivb plain has_comm_binary cwf value_of tokens tok_ok tb_eqb tb_hash_input tb_tokens key_eqb applicable trait_ref applies parse_groups gi_check gi_diagnose search_render gen_render gen_main_render gen_main_items_render gen_helper_items_render gen_helper_traits_render canon ren ren_gp gp_decl index_block validate_trait validate_inherent generated_vis fresh_blockb numbering_stableb.
